@@ -11,7 +11,7 @@ PROP = dict(
     corr=["Model/C19Corr.vo"],
     design_ref="DESIGN.md §6 C19, §8 (claimed partial)",
     technique="PARTIAL: Coq theorem lockset_sound for arbitrary lock/access skeletons (small-step interleaving semantics; every conflicting pair of access sites shares a lock, where the lockset of a site is what its function acquired so far plus what EVERY caller holds => conflicting accesses of different threads are never simultaneously enabled) + the boolean check decided by vm_compute on the skeleton regenerated from the source on every run, minus the named site pairs of the known finding; run-time part: the harness built with `go build -race` hammers every concurrent entry point of a real SwapService / real watchers / real policy.Policy, the race detector's reports are mapped back to skeleton sites",
-    level_text="Machine-checked proof that, over today's lock/access skeleton, any schedule of any number of threads started at the concurrent entry points enables two conflicting accesses to a shared field class at the same time only at the site pairs of the two recorded findings (or inside start-up / not-yet-published-object functions, listed with reasons). The skeleton is re-extracted from the working tree and the lockset check re-evaluated on every run; a new unsynchronised access site falls outside the exclusion and fails the theorem. Every run also executes the race-detector stress (peer messages, watcher callbacks and block notifications, payment notifications, timeouts, restart recovery, RPC-style calls and policy commands, concurrently, on three node configurations).",
+    level_text="Machine-checked proof that, over today's lock/access skeleton, any schedule of any number of threads started at the concurrent entry points enables two conflicting accesses to a shared field class at the same time only at the two site pairs of the recorded finding - lockSwap reading other swaps' request - (or inside start-up / not-yet-published-object functions, listed with reasons). The skeleton is re-extracted from the working tree and the lockset check re-evaluated on every run; a new unsynchronised access site falls outside the exclusion and fails the theorem. Every run also executes the race-detector stress (peer messages, watcher callbacks and block notifications, payment notifications, timeouts, restart recovery, RPC-style calls and policy commands, concurrently, on three node configurations).",
     level_note="Partial by design: the theorem is about the skeleton (field and lock CLASSES with the ownership assumption that a SwapData is reached only through its machine; control flow flattened under extractor-checked balance conditions; RLock treated as exclusive under an extractor-checked side condition; only the shared object types listed in the extractor are tracked). The Go memory model, the scheduler and the race detector are run-time: a race is observed only if the stress happens to execute both accesses concurrently. Accesses from packages outside the six analysed ones (peerswaprpc, clightning, lnd, cmd) are not in the skeleton.",
     assumptions=[
         "ownership: a SwapData / SwapStateMachine instance is reached only through its own machine and the service's active map; lock and field classes stand for the instance of the swap at hand",
